@@ -139,10 +139,24 @@ func rangeSubject(d *declInfo, s ast.Stmt) string {
 					return true
 				})
 				if n == 1 && def != nil {
-					switch def.(type) {
+					switch dx := def.(type) {
 					case *ast.IndexExpr, *ast.SelectorExpr:
 						return rangeSubject(d, &ast.RangeStmt{X: def})
+					case *ast.CallExpr:
+						// xs := recv.helper(…): named after the (canonical) callee, not after the local
+						if f, _ := typeutil.Callee(d.pkg.TypesInfo, dx).(*types.Func); f != nil {
+							fn := objName(f)
+							base := fn[strings.LastIndex(fn, ".")+1:]
+							if len(dx.Args) == 0 && strings.HasPrefix(base, "Get") && len(base) > 3 {
+								return strings.TrimPrefix(base, "Get")
+							}
+							return base + "()"
+						}
 					}
+				}
+				// parameters and other locals are named by their type: renaming them is not a change
+				if t := o.Type(); t != nil {
+					return types.TypeString(t, func(p *types.Package) string { return p.Name() })
 				}
 			}
 			return id.Name
